@@ -1226,7 +1226,11 @@ class C19(Check):
         "representative, receiver of the demand, name and direction of the merged pipe). Merged pipes: series_merge_resistance (exact when "
         "e*b = 1), series_merge_resistance_general + code_series_exponents_inconsistent (0.54*1.85 = 0.999: the code's series formula is "
         "off by A^0.001*S^0.999, measured <= 0.94 %), parallel_merge_conductance (exact for any exponents), powLaws_real, "
-        "series_merge_status_counterexample. The tie is a differential run of the real split_pipe / break_pipe / skeletonize / "
+        "series_merge_status_counterexample; the two formulas are regenerated from the source as expression trees (Gen.seriesMX / parallelMX, "
+        "series_rough_is_source, parallel_rough_is_source, merge_props_are_source) and stated over the reals as written: "
+        "parallel_merge_source_exact, series_merge_source_general. Controls: skeleton_keeps_control_referenced (every element the condition, a "
+        "THEN or an ELSE action of any control refers to AFTER any update_* history is retained). Translator tie: split_shape_is_source, "
+        "skel_shape_is_source. The tie is a differential run of the real split_pipe / break_pipe / skeletonize / "
         "_series_merge_properties / _parallel_merge_properties against the Lean driver plus the statement evaluated on the real results "
         "(to_dict, expected_demand, WNTRSimulator before/after a split).",
         design_ref="DESIGN.md §5 C19, §4 M9",
@@ -1234,7 +1238,7 @@ class C19(Check):
         "arithmetic (the model computes in Q; the Euclidean segment lengths of a vertex polyline enter as given non-negative numbers computed by "
         "the harness with the code's own formula), copy.deepcopy (return_copy is compared on the implementation only), the order in which "
         "_Skeletonize visits junctions and networkx lists neighbours (the theorems hold for EVERY step sequence; the observed sequence is "
-        "replayed), the hydraulic run inside _Skeletonize.__init__ (its result is not used by the code), the merged pipes' roughness formula. "
+        "replayed), the hydraulic run inside _Skeletonize.__init__ (its result is not used by the code). "
         "'Splitting leaves the hydraulics unchanged' is a theorem for the head loss and the open/closed state of the split pipe; the "
         "network-level claim is the simulation comparison. The split model follows fixes/C19-split-neutral-new-pipe.patch (new pipe open, no "
         "minor loss); a result that equals the `splitCopying` model (the code before that patch) is accepted by the tie and shows up as the "
